@@ -52,8 +52,10 @@ ASSUMPTIONS = [
     "float values are whole numbers of halves below 2^31; numeric strings are of the forms -?[0-9]+ and -?[0-9]+.[05]",
 ]
 EXPLANATION = (
-    "Theorems: Impl.executeRequest = Spec.executeRequest (data, errors in order, call log) for all inputs; null "
-    "placement; call-log arguments = CoerceArgumentValues; history independence of request sequences. "
+    "Theorems (all full): Impl.executeRequest = Spec.executeRequest (data, errors in order, call log) for all inputs; "
+    "nulls: data = null only with an error, every error accounts for a nulled position (longest present prefix of its "
+    "path is null); call-log arguments = CoerceArgumentValues and every position is invoked exactly once; "
+    "termination of CollectFields on cyclic fragments; history independence of request sequences. "
     "Correspondence: model vs execute_sync; oracle: Spec.executeRequest vs execute_sync on validated documents; "
     "repeat / fresh-schema determinism on the implementation."
 )
